@@ -99,12 +99,32 @@ def build(stages_file, out_file, limit=None):
     return events, skipped
 
 
+def stage_paths(events):
+    """distinct stage paths: the sequence of stages at which (solved, method, issue class, mcs key,
+    reaction = input, balanced) changed, with the new value"""
+    import collections
+    c = collections.Counter()
+    ex = {}
+    for e in events:
+        path, prev = [], None
+        for s in e["stages"]:
+            key = (s["solved"], s["by"], s["issue"], s["mcs"], s["same"], s["cur"] == {"dC": 0, "dX": 0})
+            if key != prev:
+                path.append("%s:%s/%s/%s/%s/%s/%s" % (s["name"], "S" if key[0] else "u", key[1], key[2], key[3],
+                                                   "input" if key[4] else "edited", "bal" if key[5] else "unb"))
+            prev = key
+        p = " > ".join(path[1:])
+        c[p] += 1
+        ex.setdefault(p, e["input"])
+    return [{"path": p, "rows": n, "example": ex[p]} for p, n in c.most_common()]
+
+
 def validate(stages_file, wd, limit=None):
     """Returns dict with rows, drift list (rows whose history is not a behaviour of Pipeline.tla)."""
     out = os.path.join(wd, "stage_histories.ndjson")
     events, skipped = build(stages_file, out, limit)
     if not events:
-        return {"rows": 0, "drift": [], "skipped": skipped, "states": (0, 0)}
+        return {"rows": 0, "drift": [], "skipped": skipped, "states": (0, 0), "paths": []}
     n, reached, st = common.validate_trace("Pipeline_Trace", out, xmx="12g", timeout=3 * 3600)
     drift = []
     for e, got in zip(events, reached):
@@ -113,4 +133,4 @@ def validate(stages_file, wd, limit=None):
             prev = e["stages"][got - 1] if got > 0 else None
             drift.append({"input": e["input"], "run": e["run"], "stuck_before_stage": nxt["name"], "snapshot": nxt,
                           "previous_snapshot": prev})
-    return {"rows": len(events), "drift": drift, "skipped": skipped, "states": st}
+    return {"rows": len(events), "drift": drift, "skipped": skipped, "states": st, "paths": stage_paths(events)}
